@@ -102,6 +102,24 @@ def same(a, b):
     return type(a) is type(b) and a == b
 
 
+def make_stale(d):
+    """give every computed target (named "c" in SerDes.tla) of a description an out-of-date value; -> changed?"""
+    changed = False
+    if isinstance(d, dict):
+        for k in list(d.keys()):
+            v = d[k]
+            if k == "c" and isinstance(v, int) and not isinstance(v, bool):
+                d[k] = v + 100
+                changed = True
+            elif isinstance(v, (dict, list)):
+                changed = make_stale(v) or changed
+    elif isinstance(d, list):
+        for v in d:
+            if isinstance(v, (dict, list)):
+                changed = make_stale(v) or changed
+    return changed
+
+
 def call(sd, o):
     m = M()
     op = o["op"]
@@ -342,6 +360,26 @@ def replay_state(st):
         viol.append(("C21|roundtrip|deserialiser-failed|%s" % err, "%s: deserialiser raised %s at call %s" % (desc(), err, i)))
     elif not same(des.context, d):
         viol.append(("C21|%s|differs" % ("default" if fault == "default" else "roundtrip"), "%s: deserialised %r" % (desc(), des.context)))
+    elif fault == "none" and any(o["op"] == "computed" for o in full_ops):
+        # the same complete description with OUT-OF-DATE entries for its computed targets (computed_value: "any
+        # existing value in the context will be overwritten"): the description the serialiser ends with must still
+        # be the one its bytes deserialise to
+        dstale = copy.deepcopy(dgiven)
+        if make_stale(dstale):
+            f3 = io.BytesIO()
+            wr3 = bio.BitstreamWriter(f3)
+            ser3 = sdm.Serialiser(wr3, dstale, defaults)
+            i3, err3, _ = run_program(ser3, full_ops)
+            wr3.flush()
+            evals += len(full_ops)
+            if err3 != "none":
+                dis += 1  # the property does not say that such a description must be accepted
+            else:
+                des3 = sdm.Deserialiser(bio.BitstreamReader(io.BytesIO(f3.getvalue())))
+                i4, err4, _ = run_program(des3, full_ops)
+                evals += len(full_ops)
+                if err4 != "none" or not same(des3.context, ser3.context if given == "typed" else des.context):
+                    viol.append(("C21|roundtrip|stale-computed", "%s with out-of-date computed entries %r: serialiser ended with description %r, its bytes deserialise (%s) to %r" % (desc(), dstale, ser3.context, err4, des3.context)))
     return {"violations": viol, "dis": dis, "evals": evals}
 
 
